@@ -161,6 +161,8 @@ func c17Valid(tier string) []string {
 		`(a)`, `(a | b)`, `(a | b)[1]`, `(a)/b`, `(//a)[2]/b`, `((a))`, `(1 + 2) * 3`, `-(a)`, `a | b | c`, `a[b][c]`, `a[(b)]`, `a[b[c]]`, `a[(b or c) and d]`,
 		`p:a`, `p:a/q:b`, `@p:a`, `child::p:a`, `p:*`, `//p:a[@q:b = 'x']`, `a[@b = "it's"]`, `a[. = 'say "x"']`, `/`, `/a`, `//a`, `a/b//c/@d`, `../a`, `./a`, `a/..`,
 		`ancestor::a[1]`, `following-sibling::*[last()]`, `descendant-or-self::node()/a`, `self::a`, `attribute::*`, `parent::a/child::b`, `preceding::text()`,
+		`true() or contains(a, 'x')`, `false() and count(a) > 1`, `a[true() or starts-with(b, 'x')]`, `true() or child::a`, `false() and string-length(a) > 0`, `a[false() and sum(child::b) = 1]`,
+		`1 = 1 or contains(a, 'x')`, `true() and contains(a, 'x') or child::b`, `not(true()) and floor(child::a) = 1`, `a[1 or contains(b, 'x')]`, `'s' or name(child::a)`, `0 and translate(a, 'b', 'c')`,
 		`a/(b, c)`, `//a/(b, c, d)`, `a/(b[1], @c)/d`, `a/(b, c)[1]`, `*/(text(), comment())`, `a/(b)`, `/a/(b, c)/..`, `a[b/(c, d)]`, `count(a/(b, c))`, `a/(child::b, descendant::c)`,
 		`a + b - c`, `a * b div c mod d`, `a = b != c`, `a < b <= c > d >= e`, `a or b and c`, `- a`, `--a`, `1`, `1.5`, `.5`, `'s'`, `"s"`)
 	// a nested call, a path with an explicit axis and a prefixed name in EVERY
